@@ -32,6 +32,13 @@ func resultSources(v ssa.Value, fam map[*ssa.Function]bool, seen map[ssa.Value]b
 		if f := x.Call.StaticCallee(); f != nil && fam[f] && canFail(f) {
 			return []*ssa.Call{x}
 		}
+	case *ssa.Extract:
+		// the pass-through result of a scanner wrapper fails exactly when the scanner it called failed
+		if call, ok := x.Tuple.(*ssa.Call); ok {
+			if w := call.Call.StaticCallee(); w != nil && jsonPass[w][x.Index] {
+				return []*ssa.Call{call}
+			}
+		}
 	case *ssa.Phi:
 		var out []*ssa.Call
 		for _, e := range x.Edges {
@@ -327,6 +334,11 @@ var ruleFailProp = &core.Rule{ID: "R08.2", Min: 12,
 					continue
 				}
 				g := call.Call.StaticCallee()
+				if g != nil && len(m.passIdx[g]) > 0 {
+					key := fmt.Sprintf("%s: result of %s tested", f.Name(), callOrdinal(call))
+					s.Check(tested[call], key, c.Pos(call.Pos()), "pass-through count compared with 0 on every flow", fmt.Sprintf("the consumed count handed through by %s is never tested for failure", g.Name()))
+					continue
+				}
 				if g == nil || !m.fam[g] || !canFail(g) {
 					continue
 				}
@@ -362,10 +374,54 @@ var ruleFailProp = &core.Rule{ID: "R08.2", Min: 12,
 					}
 					s.Bad(key, c.Pos(r.Pos()), fmt.Sprintf("after %s failed (edge b%d->b%d) this return yields %s, not 0: the enclosing container treats the failed value as consumed",
 						e.calls[0].Call.StaticCallee().Name(), e.from.Index, e.to.Index, r.Results[0]))
-				}
-			}
-		}
+					}
+					}
+					}
+					// wrappers: a can-fail scanner call inside a wrapper is either tested there or returned at a pass-through position
+					var ws []*ssa.Function
+					for w := range m.wrap {
+					ws = append(ws, w)
+					}
+					sort.Slice(ws, func(i, j int) bool { return ws[i].Name() < ws[j].Name() })
+					for _, w := range ws {
+					_, tested := failEdges(w, m.fam)
+					for _, ci := range core.Calls(w) {
+					call, ok := ci.(*ssa.Call)
+					if !ok {
+					continue
+					}
+					g := call.Call.StaticCallee()
+					if g == nil || !m.fam[g] || !canFail(g) {
+					continue
+					}
+					passed := false
+					for _, ref := range *call.Referrers() {
+					if r, ok := ref.(*ssa.Return); ok {
+						for k, v := range r.Results {
+							if v == ssa.Value(call) && m.passIdx[w][k] {
+								passed = true
+							}
+						}
+					}
+					}
+					// position-passing wrappers add the count to a position; the count's failure shows in their bool result
+					added := false
+					for _, ref := range *call.Referrers() {
+					if bo, ok := ref.(*ssa.BinOp); ok && bo.Op == token.ADD {
+						added = true
+					}
+					}
+					key := fmt.Sprintf("%s: result of %s tested", w.Name(), callOrdinal(call))
+					s.Check(tested[call] || passed || (added && !canReturnZeroOnly(g)), key, c.Pos(call.Pos()), "tested, or handed through to the caller", fmt.Sprintf("result of %s is neither tested nor handed to the caller as the consumed count", g.Name()))
+					}
+					}
 	}}
+
+// canReturnZeroOnly: g signals failure by 0 and 0 is not also a legitimate count (a scanner that may consume nothing,
+// like the white space scanner, never fails).
+func canReturnZeroOnly(g *ssa.Function) bool {
+	return canFail(g)
+}
 
 // ---- R10.1 path stack balance ----
 
@@ -829,7 +885,21 @@ var ruleCap = &core.Rule{ID: "R16.2", Min: 8,
 			inc      int64
 		}
 		var es []edge
-		for _, f := range m.famList {
+		// scanner functions and the wrappers that hand a depth on
+		units := append([]*ssa.Function{}, m.famList...)
+		{
+			var ws []*ssa.Function
+			for w := range m.wrap {
+				ws = append(ws, w)
+			}
+			sort.Slice(ws, func(i, j int) bool { return ws[i].Name() < ws[j].Name() })
+			units = append(units, ws...)
+		}
+		inUnits := map[*ssa.Function]bool{}
+		for _, f := range units {
+			inUnits[f] = true
+		}
+		for _, f := range units {
 			fdp := intParamIndex(f)
 			for _, ci := range core.Calls(f) {
 				call, ok := ci.(*ssa.Call)
@@ -837,11 +907,11 @@ var ruleCap = &core.Rule{ID: "R16.2", Min: 8,
 					continue
 				}
 				h := call.Call.StaticCallee()
-				if h == nil || !m.fam[h] {
+				if h == nil || !inUnits[h] {
 					continue
 				}
 				hp := intParamIndex(h)
-				if hp < 0 {
+				if hp < 0 || !m.depthTaking(h) {
 					continue // leaf scanners without a depth
 				}
 				key := fmt.Sprintf("%s: depth argument of %s", f.Name(), callOrdinal(call))
@@ -869,11 +939,11 @@ var ruleCap = &core.Rule{ID: "R16.2", Min: 8,
 		// dist[X]: minimum total increase on a path X => g
 		const inf = int64(1) << 40
 		dist := map[*ssa.Function]int64{}
-		for _, f := range m.famList {
+		for _, f := range units {
 			dist[f] = inf
 		}
 		dist[g] = 0
-		for i := 0; i < len(m.famList)+1; i++ {
+		for i := 0; i < len(units)+1; i++ {
 			for _, e := range es {
 				if e.from != g && dist[e.to] < inf && e.inc+dist[e.to] < dist[e.from] {
 					dist[e.from] = e.inc + dist[e.to]
@@ -891,9 +961,9 @@ var ruleCap = &core.Rule{ID: "R16.2", Min: 8,
 		}
 		// (c) every cycle passes through the guard function: removing g from the family call graph leaves it acyclic
 		adj := map[*ssa.Function][]*ssa.Function{}
-		for _, f := range m.famList {
+		for _, f := range units {
 			for _, ci := range core.Calls(f) {
-				if h := ci.Common().StaticCallee(); h != nil && m.fam[h] && h != g && f != g {
+				if h := ci.Common().StaticCallee(); h != nil && inUnits[h] && h != g && f != g {
 					adj[f] = append(adj[f], h)
 				}
 			}
@@ -925,8 +995,17 @@ var ruleCap = &core.Rule{ID: "R16.2", Min: 8,
 						}
 					}
 					if intParamIndex(h) >= 0 && m.depthTaking(h) {
-						s.Und(key, c.Pos(ci.Pos()), "a wrapper outside the scanner family calls a depth-taking scanner function: the depth accounting through it is not modelled")
-						continue
+						// modelled when the wrapper has a depth of its own and hands on depth + constant (an edge above)
+						modelled := false
+						for _, e := range es {
+							if e.call == ci.(*ssa.Call) {
+								modelled = true
+							}
+						}
+						if !modelled {
+							s.Und(key, c.Pos(ci.Pos()), "a wrapper outside the scanner family calls a depth-taking scanner function without a depth of its own: the depth accounting through it is not modelled")
+							continue
+						}
 					}
 					s.Check(onlyFam, key, c.Pos(ci.Pos()), "wrapper called by the scanner family only, on the caller's own state", "scanner entered from outside the pooled entry point (state may lack the cap)")
 					continue
@@ -1260,9 +1339,14 @@ var ruleAccounting = &core.Rule{ID: "R08.6", Min: 18,
 			core.Bail("inspected-bytes field not identified")
 		}
 		units := append([]*ssa.Function{}, m.famList...)
+		// which result positions of the wrappers are part of a scanner's count: read off the scanners' chains
+		used := map[*ssa.Function]map[int]bool{}
+		for _, f := range m.famList {
+			countChainAt(f, []int{0}, used)
+		}
 		var ws []*ssa.Function
 		for w := range m.wrap {
-			if w.Signature.Results().Len() > 0 && core.IsInteger(w.Signature.Results().At(0).Type()) {
+			if len(used[w]) > 0 {
 				ws = append(ws, w)
 			}
 		}
@@ -1273,7 +1357,15 @@ var ruleAccounting = &core.Rule{ID: "R08.6", Min: 18,
 				s.OK(f.Name()+": whole-function inspected-byte settlement", c.Pos(st.Pos()), "one ib += position dominating every return; returns are 0 or that position; no scanner call")
 				continue
 			}
-			chain := countChain(f)
+			positions := []int{0}
+			if !m.fam[f] {
+				positions = nil
+				for k := range used[f] {
+					positions = append(positions, k)
+				}
+				sort.Ints(positions)
+			}
+			chain := countChainAt(f, positions, nil)
 			// range-over-literal idiom: return len(X) after a full range over parameter X
 			exempt := map[*ssa.BasicBlock]bool{}
 			for _, r := range core.Returns(f) {
@@ -1376,8 +1468,12 @@ var ruleAccounting = &core.Rule{ID: "R08.6", Min: 18,
 				}
 				// a constant, non-failure return value is consumed bytes too (a helper returning 1 for one byte)
 				if rr := retOf(b); rr != nil {
-					if k, ok := core.ConstInt(rr.Results[0]); ok && k > 0 {
-						a.n += k
+					for _, pk := range positions {
+						if pk < len(rr.Results) {
+							if k, ok := core.ConstInt(rr.Results[pk]); ok && k > 0 {
+								a.n += k
+							}
+						}
 					}
 				}
 				if a.pos == token.NoPos {
@@ -1403,6 +1499,12 @@ var ruleAccounting = &core.Rule{ID: "R08.6", Min: 18,
 
 // countChain: the int values that flow (through phis and additions) into the consumed-bytes count f returns.
 func countChain(f *ssa.Function) map[ssa.Value]bool {
+	return countChainAt(f, []int{0}, nil)
+}
+
+// countChainAt: the chain of the results at the given positions; used records,
+// per helper called, which of its result positions are part of the chain.
+func countChainAt(f *ssa.Function, positions []int, used map[*ssa.Function]map[int]bool) map[ssa.Value]bool {
 	chain := map[ssa.Value]bool{}
 	var mark func(v ssa.Value)
 	mark = func(v ssa.Value) {
@@ -1424,10 +1526,17 @@ func countChain(f *ssa.Function) map[ssa.Value]bool {
 		case *ssa.Parameter:
 			chain[v] = true
 		case *ssa.Extract:
-			// position-passing helper: next, ... = helper(b, pos): the position flows through, the helper accounts for what it adds
-			if call, ok := x.Tuple.(*ssa.Call); ok && x.Index == 0 {
+			// a helper's result that is part of the count: a position handed through (next = helper(b, pos)) or a
+			// piece of the count (opening delimiter length, consumed length); the helper accounts for what it adds
+			if call, ok := x.Tuple.(*ssa.Call); ok {
 				if h := call.Call.StaticCallee(); h != nil && core.InMod(h) && h.Blocks != nil {
 					chain[v] = true
+					if used != nil {
+						if used[h] == nil {
+							used[h] = map[int]bool{}
+						}
+						used[h][x.Index] = true
+					}
 					for _, a := range call.Call.Args {
 						mark(a)
 					}
@@ -1436,8 +1545,10 @@ func countChain(f *ssa.Function) map[ssa.Value]bool {
 		}
 	}
 	for _, r := range core.Returns(f) {
-		if len(r.Results) > 0 {
-			mark(r.Results[0])
+		for _, k := range positions {
+			if k < len(r.Results) {
+				mark(r.Results[k])
+			}
 		}
 	}
 	return chain
